@@ -303,7 +303,11 @@ def _simplify_doc3():
     tmpl = El("linearGradient", {"id": "t0", "x2": "0.5", "gradientUnits": "userSpaceOnUse", "{http://www.w3.org/1999/xlink}href": "#tt"}, [], name="t0")
     h1 = El("linearGradient", {"id": "h1", "{http://www.w3.org/1999/xlink}href": "#t0", "x1": "0.1"}, [], name="h1")
     h2 = El("linearGradient", {"id": "h2", "{http://www.w3.org/1999/xlink}href": "#tt", "x2": "0.6"}, [El("stop", {"offset": "0.7"}), El("stop", {"offset": "1"})], name="h2")
-    defs = El("defs", {}, [grad("g1"), grad("g3"), grad("g4"), tt, tmpl, h1, h2], name="defs")
+    # a user-space gradient with its own gradientTransform, used by a shape that is merely translated
+    gu = El("linearGradient", {"id": "gu", "gradientUnits": "userSpaceOnUse", "x1": "1", "y1": "2", "x2": "5", "y2": "2", "gradientTransform": "tG2"},
+            [El("stop", {"offset": "0"}), El("stop", {"offset": "1"})], name="gu")
+    rt = El("rect", {"x": "2", "width": "6", "height": "2", "fill": "url(#gu)", "transform": "translate(3,4)", "id": "Rt"}, name="Rt")
+    defs = El("defs", {}, [grad("g1"), grad("g3"), grad("g4"), tt, tmpl, h1, h2, gu], name="defs")
     ra = El("rect", {"x": "1", "width": "2", "height": "3", "fill": "url(#g1)", "transform": "tR", "id": "Ra"}, name="Ra")
     rb = El("rect", {"x": "5", "width": "4", "height": "1", "fill": "url(#g1)", "transform": "tR", "id": "Rb"}, name="Rb")
     k1 = El("path", {"d": pd(("M", (1, 1)), ("L", (2, 2))), "fill": "url(#g3)", "id": "k1"}, name="k1")
@@ -312,7 +316,7 @@ def _simplify_doc3():
     u = El("path", {"d": pd(("M", (5, 5)), ("L", (6, 6))), "fill": "url(#g4)", "id": "u", "opacity": "0.5"}, name="u")
     w = El("path", {"d": pd(("M", (7, 7)), ("L", (8, 8))), "fill": "url(#h1)", "id": "w"}, name="w")
     w2 = El("path", {"d": pd(("M", (7, 9)), ("L", (8, 9))), "fill": "url(#h2)", "id": "w2"}, name="w2")
-    root = El("svg", {"viewBox": "0 0 10 10"}, [defs, ra, rb, gk, u, w, w2], name="root")
+    root = El("svg", {"viewBox": "0 0 10 10"}, [defs, ra, rb, gk, u, w, w2, rt], name="root")
     return root
 
 
@@ -679,6 +683,23 @@ def _check_doc3(root, P):
     for t in ("t0", "tt"):
         if t in grads:
             P("refs", f"the template {t} stays in defs although no shape references it")
+    if "Rt" in shapes:
+        ft = str(shapes["Rt"].attrib.get("fill", ""))
+        tgt = ft[5:-1] if ft.startswith("url(#") else None
+        if tgt == "gu" or tgt not in grads:
+            P("gradient", f"the translated shape Rt ends with fill {ft}; its user-space gradient must be rewritten to follow the shape")
+        else:
+            cl = grads[tgt]
+            gtv = cl.attrib.get("gradientTransform")
+            tok = parse_affine(gtv) if isinstance(gtv, str) else gtv
+            flat = " ".join(tok.app) if isinstance(tok, AffTok) else ""
+            i1, i2 = flat.find("parse(tG2)"), flat.find("translate(3,4)")
+            coords = {k: str(cl.attrib.get(k)) for k in ("x1", "y1", "x2", "y2")}
+            if i1 < 0 or i2 < 0 or i1 > i2:
+                P("gradient", f"the gradient of the translated shape Rt has gradientTransform {flat[:160]!r} and points {coords}: a point of the gradient goes through its own gradientTransform first, "
+                              "then through the shape's translation (moving x1..y2 instead is only the same when gradientTransform is a translation)")
+            if "rect_to_rect" in flat:
+                P("gradient", "a userSpaceOnUse gradient was mapped from the unit square to a bounding box")
 
 
 def _simplify_doc4():
